@@ -304,7 +304,7 @@ def r16e(R):
             '_call_routine no longer accepts the bracketed form')
 
 
-@rule('R16.f', ('C16', 'C18'), 'source lines are split at the newline '
+@rule('R16.f', ('C16', 'C18', 'C19'), 'source lines are split at the newline '
       'character only; string tokens are stripped of their quotes before '
       'escaped quotes are resolved', floor=2,
       decides='white space other than the line break never ends a line (a '
